@@ -34,7 +34,13 @@ for p in patches:
     try:
         for pr in props:
             t0 = time.time()
-            r = subprocess.run([os.path.join(ROOT, "run.py"), "quick", pr], capture_output=True, text=True, cwd=ROOT)
+            try:
+                r = subprocess.run([os.path.join(ROOT, "run.py"), "quick", pr], capture_output=True, text=True, cwd=ROOT, timeout=1800)
+            except subprocess.TimeoutExpired:
+                subprocess.run(["pkill", "-9", "-x", "concmon"]); subprocess.run(["pkill", "-9", "-x", "l2mon"])
+                print(f"{name}: {pr}: TIMEOUT")
+                results.append((name, "timeout"))
+                continue
             viol = [l for l in r.stdout.splitlines() if l.startswith("VIOLATION")]
             detail = [l.strip() for l in r.stderr.splitlines() if l.startswith("   ")]
             status = "CAUGHT" if viol else ("missed" if r.returncode == 0 else f"exit{r.returncode}")
